@@ -80,11 +80,25 @@ pub fn run_corpus(
                 by_enum.entry(e.enum_name.clone().unwrap()).or_default().push(e);
             }
             let mut progress = false;
+            let mine = |e: &&CompileError| e.tag.as_deref().map(|t| t.starts_with(&format!("{}:", id))).unwrap_or(false);
+            // programs whose ENUM DEFINITION (derive expansion) no longer compiles: ask the macros
+            // in-process whether they accepted it; accepted + rejected by rustc = generated code is broken
+            let suspects: Vec<(String, Vec<String>, String)> = by_enum
+                .iter()
+                .filter(|(_, errs)| !errs.iter().all(mine) && errs.iter().any(|e| e.tag.as_deref() == Some("def")))
+                .filter_map(|(en, _)| {
+                    items.iter().find(|i| &i.spec.name == en).map(|i| {
+                        let eo = vmodel::emit::enum_opts(&i.spec, &i.spec.name);
+                        (en.clone(), i.spec.derives.clone(), vmodel::emit::enum_item(&i.spec, &eo).replace("vrt::MyErr", "MyErr"))
+                    })
+                })
+                .collect();
+            let accepted = if suspects.is_empty() { BTreeMap::new() } else { inproc::accepted_by_macros(env, id, &suspects) };
             for (en, errs) in by_enum {
-                let mine = |e: &&CompileError| e.tag.as_deref().map(|t| t.starts_with(&format!("{}:", id))).unwrap_or(false);
+                let broken_expansion = accepted.get(&en).copied().unwrap_or(false);
                 let is_violation = match plan.policy {
                     Policy::AllErrors => true,
-                    Policy::TaggedOnly => errs.iter().all(mine),
+                    Policy::TaggedOnly => errs.iter().all(mine) || broken_expansion,
                 };
                 if removed.insert(en.clone()) {
                     progress = true;
@@ -92,8 +106,9 @@ pub fn run_corpus(
                 let first = errs[0];
                 if is_violation {
                     let spec = items.iter().find(|i| i.spec.name == en).map(|i| i.spec.clone());
+                    let first = if broken_expansion && !errs.iter().all(mine) { errs.iter().find(|e| e.tag.as_deref() == Some("def")).copied().unwrap_or(first) } else { first };
                     out.violations.push(Violation {
-                        kind: format!("compile:{}", first.tag.clone().unwrap_or_else(|| "error".into())),
+                        kind: if broken_expansion && !errs.iter().all(mine) { "compile:generated-code-rejected-by-rustc".to_string() } else { format!("compile:{}", first.tag.clone().unwrap_or_else(|| "error".into())) },
                         enum_name: en.clone(),
                         spec,
                         detail: json!({"message": first.message, "rendered": first.rendered, "line": first.line}),
